@@ -1,0 +1,14 @@
+//go:build verif
+
+package rtptime
+
+import "time"
+
+// VerifSetTimeNow replaces the package clock (nil restores time.Now).
+// (verification instrumentation, build tag verif)
+func VerifSetTimeNow(f func() time.Time) {
+	if f == nil {
+		f = time.Now
+	}
+	timeNow = f
+}
